@@ -481,6 +481,8 @@ struct Det {
     rxs: BTreeMap<usize, oneshot::Receiver<u64>>,
     seen: BTreeMap<usize, Seen>,
     joined: Option<String>,
+    /// gated blocking closures (they cannot resolve before `release`)
+    gated: BTreeSet<usize>,
 }
 
 impl Det {
@@ -506,6 +508,9 @@ impl Det {
         let Some(d) = &self.disp else { return "no-dispatcher".into() };
         let ctx = self.ctx.clone();
         self.specs.insert(t, (end, true));
+        if gated {
+            self.gated.insert(t);
+        }
         match d.dispatch_blocking(move || if gated { gated_body(&ctx, t, end) } else { blocking_body(&ctx, t, end) }) {
             Ok(rx) => {
                 self.accepted.insert(t);
@@ -630,7 +635,8 @@ impl Det {
             }
         }
         // every remaining receiver must resolve now
-        let pending: Vec<usize> = self.rxs.keys().copied().collect();
+        let open = self.ctx.gate.load(Ordering::SeqCst);
+        let pending: Vec<usize> = self.rxs.keys().copied().filter(|t| open || !self.gated.contains(t)).collect();
         for t in pending {
             let _ = self.wait(t, ex).await;
         }
@@ -681,6 +687,7 @@ fn exec_det(rt: &Runtime, case: &Case) -> Exec {
         rxs: BTreeMap::new(),
         seen: BTreeMap::new(),
         joined: None,
+        gated: BTreeSet::new(),
     };
     let mut outs = vec![];
     rt.block_on(async {
